@@ -3,6 +3,7 @@ package lsp
 import (
 	"strings"
 	"sync"
+	"unicode/utf8"
 )
 
 // DocumentManager manages open SQL documents in a thread-safe manner.
@@ -271,41 +272,76 @@ func splitLines(content string) []string {
 	return lines
 }
 
-// applyChange applies an incremental change to the document
+// applyChange applies an incremental change to the document.
+//
+// Positions are interpreted under the LSP rules: a line past the end of the
+// document denotes the end of the document, a character past the end of a
+// line denotes the end of that line, negative values denote the start, and
+// Character counts UTF-16 code units. An end position before the start
+// position is treated as an empty range at the start position.
 func applyChange(content string, lines []string, change TextDocumentContentChangeEvent) string {
 	if change.Range == nil {
 		return change.Text
 	}
 
-	startOffset := positionToOffset(lines, change.Range.Start)
-	endOffset := positionToOffset(lines, change.Range.End)
+	startOffset := clampOffset(positionToOffset(lines, change.Range.Start), len(content))
+	endOffset := clampOffset(positionToOffset(lines, change.Range.End), len(content))
+	if endOffset < startOffset {
+		endOffset = startOffset
+	}
 
 	// Build new content
 	var result strings.Builder
 	result.WriteString(content[:startOffset])
 	result.WriteString(change.Text)
-	if endOffset < len(content) {
-		result.WriteString(content[endOffset:])
-	}
+	result.WriteString(content[endOffset:])
 
 	return result.String()
 }
 
-// positionToOffset converts a Position to a byte offset
+// clampOffset limits offset to the range [0, n].
+func clampOffset(offset, n int) int {
+	if offset < 0 {
+		return 0
+	}
+	if offset > n {
+		return n
+	}
+	return offset
+}
+
+// positionToOffset converts a Position to a byte offset into the document
+// whose lines (split at '\n') are given. Out-of-range positions are clamped.
 func positionToOffset(lines []string, pos Position) int {
+	if pos.Line < 0 {
+		return 0
+	}
 	offset := 0
 	for i := 0; i < pos.Line && i < len(lines); i++ {
 		offset += len(lines[i]) + 1 // +1 for newline
 	}
 	if pos.Line < len(lines) {
-		lineLen := len(lines[pos.Line])
-		if pos.Character < lineLen {
-			offset += pos.Character
-		} else {
-			offset += lineLen
-		}
+		offset += utf16ToByteOffset(lines[pos.Line], pos.Character)
+	} else if offset > 0 {
+		offset-- // past the last line: end of document (the last line has no newline)
 	}
 	return offset
+}
+
+// utf16ToByteOffset returns the byte offset within line of the position that
+// lies char UTF-16 code units into it, clamped to [0, len(line)].
+func utf16ToByteOffset(line string, char int) int {
+	i, units := 0, 0
+	for i < len(line) && units < char {
+		r, size := utf8.DecodeRuneInString(line[i:])
+		if r >= 0x10000 {
+			units += 2
+		} else {
+			units++
+		}
+		i += size
+	}
+	return i
 }
 
 // GetWordAtPosition returns the word at the given position.
@@ -339,7 +375,7 @@ func positionToOffset(lines []string, pos Position) int {
 // This method is safe for concurrent use as it operates on document fields
 // without modifying state.
 func (doc *Document) GetWordAtPosition(pos Position) string {
-	if pos.Line >= len(doc.Lines) {
+	if pos.Line < 0 || pos.Line >= len(doc.Lines) || pos.Character < 0 {
 		return ""
 	}
 
